@@ -342,7 +342,7 @@ func execLive(wire []byte) string {
 	if strings.HasPrefix(ans, "err") && !ch.dead() {
 		ans = keyExchange(ch, 8*time.Second)
 	}
-	if ans == "err no-answer" && !ch.dead() {
+	if ans != "ok alive" && !ch.dead() {
 		ch.kill() // the listener no longer answers (quic-go closed the transport): fresh child for the next op
 	}
 	return ans
